@@ -99,6 +99,52 @@ func LoadEngine(repo string, verifDir string) (*Engine, error) {
 			}
 		}
 	}
+	// deterministic type tags: every type of the module's own packages gets its tag now, in sorted order, so
+	// that the generated conditions do not depend on which functions were verified before
+	{
+		seen := map[string]types.Type{}
+		note := func(t types.Type) {
+			if t == nil {
+				return
+			}
+			if _, isTuple := t.(*types.Tuple); isTuple {
+				return
+			}
+			seen[types.TypeString(canonType(t), nil)] = t
+		}
+		for _, p := range e.allTypesPkgs() {
+			if !strings.HasPrefix(p.Path(), e.modPath) {
+				continue
+			}
+			sc := p.Scope()
+			for _, n := range sc.Names() {
+				if tn, ok := sc.Lookup(n).(*types.TypeName); ok {
+					note(tn.Type())
+					note(types.NewPointer(tn.Type()))
+				}
+			}
+		}
+		for f := range ssautil.AllFunctions(prog) {
+			if f.Pkg == nil || !strings.HasPrefix(f.Pkg.Pkg.Path(), e.modPath) {
+				continue
+			}
+			for _, b := range f.Blocks {
+				for _, in := range b.Instrs {
+					if v, ok := in.(ssa.Value); ok {
+						note(v.Type())
+					}
+				}
+			}
+		}
+		var ks []string
+		for k := range seen {
+			ks = append(ks, k)
+		}
+		sort.Strings(ks)
+		for _, k := range ks {
+			e.ti.TagOf(seen[k])
+		}
+	}
 	e.db = NewSpecDB()
 	files, err := e.db.LoadRepoSpecs(repo, e.modPath)
 	if err != nil {
@@ -445,6 +491,24 @@ func (e *Engine) VerifyFunc(key string) (res *FuncResult) {
 	for i, p := range fn.Params {
 		fr.env[p] = params[i]
 	}
+	// function-local ghost variables (`ghostvar name sort`): initialised to 0 / false / nil
+	if sp != nil {
+		for _, c := range sp.ClausesOf("ghostvar") {
+			name, so := parseGhostVar(c)
+			var z *Term
+			switch so {
+			case SInt:
+				z = IntLit(0)
+			case SBool:
+				z = TFalse
+			case SIface:
+				z = NilIface
+			default:
+				unsup("%s:%d: ghostvar sort", c.File, c.Line)
+			}
+			st.ghosts["gv:"+name] = z
+		}
+	}
 	fr.entry = st.clone()
 	if sp != nil {
 		for _, c := range sp.ClausesOf("requires") {
@@ -587,4 +651,23 @@ func (e *Engine) VerifyLemma(b *Block) *FuncResult {
 func fileExists(p string) bool {
 	_, err := os.Stat(p)
 	return err == nil
+}
+
+
+// parseGhostVar: `ghostvar name int|bool|any`
+func parseGhostVar(c *Clause) (string, Sort) {
+	f := strings.Fields(c.Text)
+	if len(f) != 2 {
+		unsup("%s:%d: ghostvar needs `name sort`", c.File, c.Line)
+	}
+	switch f[1] {
+	case "int", "mathint":
+		return f[0], SInt
+	case "bool":
+		return f[0], SBool
+	case "any":
+		return f[0], SIface
+	}
+	unsup("%s:%d: ghostvar sort %s (int, bool, any)", c.File, c.Line, f[1])
+	return "", SInt
 }
